@@ -34,7 +34,7 @@ var intrinsicDoc = map[string]string{
 	"crypto/subtle.ConstantTimeByteEq":                                  "1 iff x == y",
 	"foreign interface method":                                          "a method of an interface value whose dynamic type is not a type of this module reads and writes no memory of this module (its objects are unexported or passed by value); its scalar result is arbitrary",
 	"base-256 digits":                                                   "positional notation is unique: if the big-endian value of n bytes b equals x then b[i] is the i-th base-256 digit of x, written be(n,x)[i]; be(n,x) has value x",
-	"strings.ToValidUTF8": "the result equals the argument iff the argument is valid UTF-8 (validutf8, uninterpreted)",
+	"strings.ToValidUTF8":                                               "the result equals the argument iff the argument is valid UTF-8 (validutf8, uninterpreted)",
 	"errors.New":                                                        "returns a fresh non-nil error",
 	"crypto/rand.Reader":                                                "the package variable is a non-nil reader after the standard library's initialisation and nobody reassigns it",
 	"fmt.Errorf":                                                        "returns a fresh non-nil error",
